@@ -114,6 +114,24 @@ def run(W, chk):
         cf = lambda s: s == {"Store(CONFIG).pool_creation_fee.denom"}   # noqa: E731
         return (tf(a) and cf(b)) or (tf(b) and cf(a))
     from base import AssumeReturn
+    # the same-denom decision compares denoms and nothing else (comparing whole coins would miss a fee of another amount in that denom)
+    whole = []
+    for e in A0.events:
+        if e.kind in ("switch", "invoke") and e.vals:
+            def _coin_cmp(pn, pa):
+                if pn not in ("eq", "ne") or len(pa) < 2:
+                    return False
+                a, b = all_origins(pa[0]), all_origins(pa[1])
+                tf = lambda s: bool(s) and all("denom_creation_fee" in x for x in s)   # noqa: E731
+                cf = lambda s: bool(s) and all(x.startswith("Store(CONFIG).pool_creation_fee") for x in s)   # noqa: E731
+                if (tf(a) and cf(b)) or (tf(b) and cf(a)):
+                    return not all(x.endswith(".denom") or x.endswith(".amount") for x in a | b)
+                return False
+            if any(pred_tree_has(v, _coin_cmp) for v in e.vals):
+                whole.append(e)
+    chk.expect(not whole, "ACUT-same-denom-fee", "denoms only", "token-factory fees are matched to the creation fee by denom",
+               "a token-factory fee coin is compared with the creation fee coin as a whole (denom and amount): a fee of another amount in the same denom is not recognised",
+               where(whole[0]) if whole else "")
     assume = AssumeReturn("assume a token-factory fee in the creation fee's denom", lambda pn, pa: pn == "any" and pred_tree_has(pa[0], _same_denom))
     pol = CutPolicy([], assume=[assume])
     S = W.run("pool_manager", "execute", ("CreatePool",), pol)
